@@ -14,8 +14,9 @@ import (
 )
 
 type vh11Ans struct {
-	N   int     `json:"n"`
-	Err vhclErr `json:"err"`
+	N      int     `json:"n"`
+	Err    vhclErr `json:"err"`
+	Stored bool    `json:"stored,omitempty"` // the backend stores N bytes and then fails with Err
 }
 
 type vh11Call struct {
@@ -130,7 +131,7 @@ func (f *vh11File) Open(OpenFlags) (QID, uint32, error) { return QID{Type: TypeR
 func (f *vh11File) WriteAt(p []byte, off int64) (int, error) {
 	a := f.next()
 	c := vh11Call{Len: len(p), Off: off, Err: a.Err}
-	if a.Err.K != "nil" {
+	if a.Err.K != "nil" && !a.Stored {
 		f.calls = append(f.calls, c)
 		return 0, vh11Err(a.Err)
 	}
@@ -140,6 +141,14 @@ func (f *vh11File) WriteAt(p []byte, off int64) (int, error) {
 	}
 	for i := 0; i < k; i++ {
 		f.put(off+int64(i), p[i])
+	}
+	if a.Stored {
+		if k > 0 && off+int64(k) > f.size {
+			f.size = off + int64(k)
+		}
+		c.N = k
+		f.calls = append(f.calls, c)
+		return k, vh11Err(a.Err)
 	}
 	if k > 0 && off+int64(k) > f.size {
 		f.size = off + int64(k)
@@ -195,20 +204,25 @@ type vh11Spec struct {
 	base  int64
 	flen  int
 	tape  []vh11Ans
+	heavy bool
 }
 
-func vh11Pattern(r *rand.Rand, n int) []byte {
+func vh11PatternAC(a, c byte, n int) []byte {
 	b := make([]byte, n)
-	a, c := byte(r.Intn(256))|1, byte(r.Intn(256))
 	for i := range b {
 		b[i] = a*byte(i) + c + byte(i>>8)
 	}
 	return b
 }
 
+func vh11Pattern(r *rand.Rand, n int) []byte {
+	return vh11PatternAC(byte(r.Intn(256))|1, byte(r.Intn(256)), n)
+}
+
 // vh11Run performs one ReadAt/WriteAt; big runs are reported at length level only.
 func vh11Run(t *testing.T, o *vhOut, id int, r *rand.Rand, s vh11Spec, big bool) {
-	content := vh11Pattern(r, s.flen)
+	fa, fc, pa, pc := byte(r.Intn(256))|1, byte(r.Intn(256)), byte(r.Intn(256))|1, byte(r.Intn(256))
+	content := vh11PatternAC(fa, fc, s.flen)
 	f := vh11NewFile(s.base, content)
 	f.tape = append([]vh11Ans(nil), s.tape...)
 	pr, err := vhclPair(vhclAttacher{func() (File, error) { return f, nil }}, s.msize, -1)
@@ -223,7 +237,7 @@ func vh11Run(t *testing.T, o *vhOut, id int, r *rand.Rand, s vh11Spec, big bool)
 	if _, _, err := root.Open(ReadWrite); err != nil {
 		t.Fatalf("C11 open: %v", err)
 	}
-	p := vh11Pattern(r, s.lenp)
+	p := vh11PatternAC(pa, pc, s.lenp)
 	p0 := append([]byte(nil), p...)
 	var n int
 	if s.write {
@@ -253,7 +267,7 @@ func vh11Run(t *testing.T, o *vhOut, id int, r *rand.Rand, s vh11Spec, big bool)
 		}
 		ok := n >= 0 && n <= s.lenp
 		if ok && s.write {
-			for i := 0; i < n; i++ {
+			for i := 0; i < n; i++ { // (bytes a failing request stored beyond n are not an error)
 				if f.get(s.off+int64(i)) != p0[i] {
 					ok = false
 					break
@@ -274,6 +288,31 @@ func vh11Run(t *testing.T, o *vhOut, id int, r *rand.Rand, s vh11Spec, big bool)
 					break
 				}
 			}
+		}
+		if s.lenp <= 30000 || (s.heavy && s.lenp <= 140000) {
+			// content compared in Coq: buffers and file given by their generator parameters
+			stored := 0
+			if len(f.calls) > 0 && f.calls[len(f.calls)-1].Err.K != "nil" {
+				stored = f.calls[len(f.calls)-1].N
+			}
+			rec := map[string]interface{}{"kind": "big" + kind, "id": id, "msize": pr.c.messageSize, "cs": cs, "pa": pa, "pc": pc, "lenp": s.lenp, "off": s.off,
+				"base": s.base, "fa": fa, "fc": fc, "flen": s.flen, "tape": tape, "stored": stored, "n": n, "err": ce, "calls": calls}
+			if s.write {
+				ws := s.off - 8
+				if ws < 0 {
+					ws = 0
+				}
+				win := make([]byte, int(s.off-ws)+s.lenp+8)
+				for i := range win {
+					win[i] = f.get(ws + int64(i))
+				}
+				rec["wstart"] = ws
+				rec["window"] = vhBytes(win)
+			} else {
+				rec["buf_after"] = vhBytes(p)
+			}
+			o.Emit(rec)
+			return
 		}
 		o.Emit(map[string]interface{}{"kind": "direct", "sub": kind, "id": id, "msize": pr.c.messageSize, "cs": cs, "lenp": s.lenp, "off": s.off,
 			"tape": tape, "panicked": false, "n": n, "err": ce, "calls": calls, "content_ok": ok})
@@ -301,7 +340,14 @@ func vh11Run(t *testing.T, o *vhOut, id int, r *rand.Rand, s vh11Spec, big bool)
 
 func vh11Tape(r *rand.Rand, nchunks int, cs int) []vh11Ans {
 	full := vh11Ans{N: -1, Err: vhclErr{K: "nil"}}
-	switch r.Intn(5) {
+	switch r.Intn(6) {
+	case 5: // the backend stores part of a chunk and then fails
+		at := r.Intn(nchunks + 1)
+		var t []vh11Ans
+		for i := 0; i < at; i++ {
+			t = append(t, full)
+		}
+		return append(t, vh11Ans{N: r.Intn(cs + 1), Err: vhclErr{K: "errno", N: uint32(1 + r.Intn(130))}, Stored: true})
 	case 0, 1:
 		return nil
 	case 2: // short count at some chunk
@@ -441,6 +487,7 @@ func TestVerifC11(t *testing.T) {
 						s.base = s.off - 2
 					}
 					s.tape = vh11Tape(r, k+1, cs)
+					s.heavy = msize == 65536 && k == 2 && d == 1
 					vh11Run(t, o, id, r, s, true)
 					id++
 				}
